@@ -52,7 +52,9 @@ func H_C17(tbl, router int) {
 	for _, s := range t.services {
 		claims += vIte(refRootMatch(vRootToks(s.root), segsK) == refYes, 1, 0)
 	}
-	verifKnown("options-nested-roots", claims >= 2)
+	// ... and the recorded behaviour is specific: the filter lists the methods of the matching routes of ALL
+	// claiming services. unionHas[m] is that reference of the defect; the class only covers answers equal to it.
+	nestedClaim := claims >= 2
 	verifKnown("routers-noncanonical", vOr(!strings.HasPrefix(p, "/"), strings.Contains(p, "//")))
 	verifKnown("jsr311-newline", strings.Contains(p, "\n"))
 	methods := append(vTableMethods(h.flat), "LOCK")
@@ -98,6 +100,18 @@ func H_C17(tbl, router int) {
 	if len(set) > 0 {
 		verifCover("options-nonempty")
 	}
+	unionOK := true
+	for _, m := range methods {
+		has := false
+		for _, f := range h.flat {
+			if f.route.method == m {
+				svcRoot := vRootToks(t.services[f.svc].root)
+				has = vOr(has, vAnd(refRootMatch(svcRoot, segsK) == refYes, refPathMatch(f.toks, segsK) == refYes))
+			}
+		}
+		unionOK = vAnd(unionOK, has == vContains(set, m))
+	}
+	verifKnown("options-nested-roots", vAnd(nestedClaim, unionOK))
 	verifAssert(strings.Join(set, ",") == strings.Join(vAllowSet(acam), ","), "C17: Allow and Access-Control-Allow-Methods differ")
 	for i, m := range methods {
 		verifAssert(routable[i] == vContains(set, m), "C17: the OPTIONS filter does not list exactly the routable methods")
